@@ -470,5 +470,5 @@ MANIFEST = {
     "text": "translation validation: every generated program's conversion was validated (same ordered rule list by meaning with eq-splits as equal-union runs, remarks / name / numbers / group members kept, strict target syntax, there-back-there text equality, library re-read fixpoint); thousands (quick) / 180 000 (thorough) programs in both directions under all switch settings",
     "note": "trusted: lib/refsem.py strict syntax + meaning; name tables from the library (pinned by C09); multi-port neq is excluded here and owned by C19; refusals accepted only where the target cannot express the input",
 }
-MANIFEST["engine"] += " + atheris (coverage-guided twins of the Hypothesis sub-checks, fuzz/fuzz_hyp.py: 2 jobs x 8 s quick, 8 jobs x 200 s thorough)"
+MANIFEST["engine"] = MANIFEST.get("engine", "hypothesis") + " + atheris (coverage-guided twins of the Hypothesis sub-checks, fuzz/fuzz_hyp.py: 2 jobs x 8 s quick, 8 jobs x 200 s thorough)"
 MANIFEST["technique"] += "; plus coverage-guided fuzzing of the same strategies (atheris/libFuzzer mutates the byte stream Hypothesis decodes into cases, the same oracle runs inside the target, findings are re-judged outside it)"
